@@ -93,6 +93,11 @@ CLAIMED = {
             "TLC checks monotonicity of the reference acceptance along every relaxation step, and judges the real is_url's 16 answers per candidate (32 covering implications, "
             "strip-invariance, TLD clause) and every item urls_from_text yields (non-empty, substring in order, no surrounding whitespace, accepted by is_url).",
             "Trusted: TLC; is_url's verdict on yielded items is logged from the real is_url (the property refers to it); TLD list is data."),
+    "C17": ("DESIGN.md section 4 / C17",
+            "documents as element sequences with ground-truth hrefs in TLA+; links_from_html as a ProcessHref / already_seen state machine (invariants checked by TLC) and as an executable reference over logged urljoin / is_url / canonicalize_url answers; documents rendered by TLC, replayed as str and bytes; TLC trace validation",
+            "TLC enumerates documents, computes the expected href list (stripped, unescaped, outside scripts, in order) and the expected link list, and compares them with what "
+            "urls_from_html returns for str and for bytes and what links_from_html yields under canonicalize x unique x strip_fragment.",
+            "Trusted: TLC; the element table's ground truth; urljoin (stdlib); is_url and canonicalize_url answers are the real functions' (judged by C16, C01)."),
     "C18": ("DESIGN.md section 4 / C18",
             "Member(host, domains) and the path predicates defined in TLA+; TLC checks membership stability under leading labels / glued labels / foreign suffixes for every listed domain and derives the host universe; hosts x paths x decoy texts x 5 URL forms replayed into the 7 site predicates and 4 simple predicates; TLC trace validation (form-independent, true-iff-member, decoy-independent ...)",
             "Every listed site domain (documented patterns, bundled YouTube and shortener lists) and its look-alikes are run through the predicates in five forms with decoy "
